@@ -160,7 +160,7 @@ def _none_tests(check: Check, impls):
                nontrivial=False)
 
 
-def _cursors(check: Check):
+def _cursors(check: Check, rule: str = 'R-ORDER.cursor'):
   """Every query of a view gets its own cursor: a cursor stored on the object is iteration state shared by all passes."""
   repo = check.repo
   ci = repo.cls(SQL, 'SQLiteFederatedData')
@@ -178,12 +178,12 @@ def _cursors(check: Check):
         if x.func.attr.startswith('execute'):
           n_exec += 1
         if isinstance(recv, ast.Attribute) and txt(recv.value) == 'self' and recv.attr in shared:
-          check.ob('R-ORDER.cursor', mth, txt(x)[:70], False,
+          check.ob(rule, mth, txt(x)[:70], False,
                    f'self.{recv.attr} is one cursor shared by every pass over this view: two iterations that are alive at the same '
                    f'time (nested loops, zip, a shuffled pass and a plain pass) steal each other\'s rows', node=x)
-  check.ob('R-ORDER.cursor', ci, f'{n_exec} queries, cursors stored on self: {sorted(shared)}', not shared,
+  check.ob(rule, ci, f'{n_exec} queries, cursors stored on self: {sorted(shared)}', not shared,
            'every query runs on a fresh cursor (connection.execute), so concurrent passes are independent')
-  check.floor('R-ORDER.cursor', 'queries', n_exec, 6)
+  check.floor(rule, 'queries', n_exec, 6)
 
 
 def _range_where(check: Check):
@@ -563,6 +563,40 @@ def _client_dataset(check: Check):
              'resulting ClientDataset')
 
 
+def federated_impls(repo):
+  base = repo.cls(FD, 'FederatedData')
+  impls = [repo.cls(IMFD, 'InMemoryFederatedData'), repo.cls(SQL, 'SQLiteFederatedData'), repo.cls(FD, 'SubsetFederatedData')]
+  for c in repo.subclasses_of(base):
+    if c not in impls and c.module.name.startswith('fedjax'):
+      impls.append(c)
+  return impls
+
+
+def shuffled_stream(check: Check, ci, rule: str):
+  """shuffled_clients: one RandomState(seed) built unconditionally from the seed parameter, endless full passes."""
+  repo = check.repo
+  sc = ci.method('shuffled_clients')
+  ff = FuncFlow.of(repo, sc)
+  check.analysed(sc)
+  seedp = sc.positional_params[2] if len(sc.positional_params) > 2 else 'seed'
+  rs_calls = [c for _, c in ff.calls() if ff.ext(c.func) == 'numpy.random.RandomState']
+  rs = [d for ds in ff.rd.defs_at.values() for d in ds if isinstance(d.value, ast.Call) and ff.ext(d.value.func) == 'numpy.random.RandomState']
+  seeded = (len(rs_calls) == 1 and len(rs) == 1 and bool(rs[0].value.args) and ff.param_of(rs[0].value.args[0]) == seedp and
+            wmean._loop_of(ff, rs[0].node.ast) is None and not guards_of(ff, rs[0].node.ast))
+  # the seed parameter is not rewritten or tested for truthiness (seed 0 is a seed)
+  seed_tests = [n for n in ff.cfg.nodes if n.kind in ('if', 'while') and any(isinstance(x, ast.Name) and x.id == seedp for x in ast.walk(n.ast.test))]
+  seed_tests += [x for x in ast.walk(sc.node) if isinstance(x, (ast.IfExp, ast.BoolOp)) and any(
+      isinstance(y, ast.Name) and y.id == seedp for y in ast.walk(x.test if isinstance(x, ast.IfExp) else x))]
+  full = False
+  for _, c in ff.calls():
+    if wmean.repo_fn(ff, c) == f'{CD}:buffered_shuffle' and c.args:
+      src = c.args[0]
+      full = isinstance(src, ast.Call) and txt(src.func) in ('self.clients', 'self._read_clients') and not src.args
+  check.ob(rule, sc, f'{ci.name}.shuffled_clients', bool(seeded) and full and not seed_tests,
+           f'one RandomState(seed) for the whole stream, built from the seed argument whatever its value (ok={bool(seeded)}, '
+           f'seed tested/defaulted: {len(seed_tests)}); every pass shuffles a complete pass over the view (ok={full})')
+
+
 def _order(check: Check, impls):
   repo = check.repo
   for ci in impls:
@@ -580,19 +614,7 @@ def _order(check: Check, impls):
     ys = [y for _, y in ff.yields()]
     ok = ok and len(ys) >= 1
     check.ob('R-ORDER.get-clients', gc, f'{ci.name}.get_clients', ok, 'clients are produced by one pass over the requested ids, in request order')
-    # shuffled_clients: RandomState(seed) once, endless passes over the full view
-    sc = ci.method('shuffled_clients')
-    ff = FuncFlow.of(repo, sc)
-    rs = [d for ds in ff.rd.defs_at.values() for d in ds if isinstance(d.value, ast.Call) and ff.ext(d.value.func) == 'numpy.random.RandomState']
-    seeded = len(rs) == 1 and rs[0].value.args and ff.param_of(rs[0].value.args[0]) == 'seed' and wmean._loop_of(ff, rs[0].node.ast) is None
-    full = False
-    for _, c in ff.calls():
-      if wmean.repo_fn(ff, c) == f'{CD}:buffered_shuffle' and c.args:
-        src = c.args[0]
-        full = isinstance(src, ast.Call) and txt(src.func) in ('self.clients', 'self._read_clients') and not src.args
-        inf = isinstance(wmean._loop_of(ff, wmean._loop_of(ff, c) or c), ast.While) if wmean._loop_of(ff, c) is not None else False
-    check.ob('R-ORDER.shuffled', sc, f'{ci.name}.shuffled_clients', seeded and full,
-             f'one RandomState(seed) for the whole stream (ok={seeded}); every pass shuffles a complete pass over the view (ok={full})')
+    shuffled_stream(check, ci, 'R-ORDER.shuffled')
   # deterministic order of id iteration for the dict/set backed implementations
   for modname, cname in ((IMFD, 'InMemoryFederatedData'), (FD, 'SubsetFederatedData')):
     ci = repo.cls(modname, cname)
